@@ -68,6 +68,19 @@ func opUpdateAppend(key, tag string) SOp {
 	}}
 }
 
+// opUpdateExpOnly: the callback leaves the body alone and sets an expiry; the result records the body it was shown last.
+func opUpdateExpOnly(key string) SOp {
+	return SOp{Name: "Update " + key + " (expiry only)", Do: func(w *SWorld, st *TState) (string, []uint64) {
+		var shown []byte
+		cas, err := w.C(st.T).Update(key, 0, func(cur []byte) ([]byte, *uint32, bool, error) {
+			shown = append([]byte(nil), cur...)
+			e := uint32(100)
+			return nil, &e, false, nil
+		})
+		return fmt.Sprintf("%s shown=%q «0»", ec(err), shown), []uint64{cas}
+	}}
+}
+
 func opWriteCasFromRead(key, body string) SOp {
 	return SOp{Name: "WriteCas(read cas) " + key + "=" + body, Do: func(w *SWorld, st *TState) (string, []uint64) {
 		cas, err := w.C(st.T).WriteCas(key, 0, st.Cas, []byte(body), sgbucket.Raw)
@@ -191,6 +204,16 @@ func init() {
 	variants(Scenario{Name: "S7-touch-preserve-expiry", Prop: []string{"C03", "C14"}, Lin: true,
 		Setup:   func(w *SWorld) { must(w.A[0].Set("k", 10, nil, []byte(`{"v":0}`))) },
 		Threads: [][]SOp{{opTouch("k", 30)}, {opSetJSON("k", `{"v":1}`, 0, true)}, {opGetExpiry("k")}}}, 1, 2)
+	// Update whose callback only changes the expiry, against a blind writer; the operation reports what its callback was shown
+	variants(Scenario{Name: "S10-update-exponly-set", Prop: lin, Lin: true, Setup: setupSet("k", "s0"),
+		Threads: [][]SOp{{opUpdateExpOnly("k")}, {opSet("k", "s1")}, {opGetExpiry("k")}}}, 1, 2)
+	// deeper drivers for the thorough tier: three operations per thread
+	variants(Scenario{Name: "S9-incr-get-deep", Prop: lin, Lin: true, ThoroughOnly: true,
+		Threads: [][]SOp{{opIncr("k"), opIncr("k"), opGet("k")}, {opIncr("k"), opGet("k"), opIncr("k")}, {opGet("k"), opGet("k")}}}, 1, 2)
+	variants(Scenario{Name: "S9-update-set-delete-deep", Prop: lin, Lin: true, ThoroughOnly: true, Setup: setupSet("k", "s"),
+		Threads: [][]SOp{{opUpdateAppend("k", "a"), opUpdateAppend("k", "b")}, {opSet("k", "S"), opDelete("k"), opAdd("k", "n")}, {opGet("k"), opUpdateAppend("k", "c")}}}, 1, 2)
+	variants(Scenario{Name: "S9-xattr-body-deep", Prop: lin, Lin: true, ThoroughOnly: true, Setup: setupSet("k", `{"d":1}`),
+		Threads: [][]SOp{{opWUXCounter("k", "_s"), opGetWithXattrs("k")}, {opSetXattr("k", "u", `{"u":1}`), opWUXCounter("k", "_s")}, {opSetJSON("k", `{"d":2}`, 0, false), opDelete("k")}}}, 1, 2)
 	variants(Scenario{Name: "S8-three-handles", Prop: lin, Lin: true,
 		Threads: [][]SOp{{opIncr("k"), opSet("k", "7")}, {opIncr("k")}, {opGet("k"), opGet("k")}}}, 3)
 }
